@@ -341,11 +341,63 @@ def run(task, ctx):
                             ctx.violation(f"datafit:{dspec['name']}.{acc}", kind, dict(base, w=w.tolist()), got, exp,
                                           where=dict(datafit=dspec["name"], accessor=acc))
                     ctx.count("problems")
+                    if dspec["name"] in ("SqrtQuadratic", "Pinball"):
+                        prox_checks(ctx, d, dspec, y, base)
         ctx.sample(dict(dspec=dspec0, designs=len(designs(tier))))
+
+
+def prox_eval(d, dspec, y, w, step):
+    """prox / prox_conjugate of the primal-dual datafits: brute-force minimisation and Moreau's identity.
+    Returns list of (accessor, kind, observed, expected)."""
+    from mc.ref import prox as RXm
+    fails = []
+    name = dspec["name"]
+    u = np.asarray(d.prox(w.copy(), float(step), y), dtype=float)
+
+    def F(v):
+        return 0.5 * float(np.sum((v - w) ** 2)) + step * RL.value(dspec, y, v)
+    if name == "SqrtQuadratic":
+        Fmin = RXm.radial_block_min(dict(name="L2_1", alpha=1.0), w - y, step)
+    else:
+        q = dspec["quantile_level"]
+        Fmin = 0.0
+        for wi, yi in zip(w, y):                 # separable: candidates are the kink y_i and the two shifted points
+            cands = np.array([yi, wi + step * q, wi - step * (1 - q), wi])
+            vals = 0.5 * (cands - wi) ** 2 + step * (q * np.maximum(yi - cands, 0) + (1 - q) * np.maximum(cands - yi, 0))
+            Fmin += float(vals.min())
+    if not np.all(np.isfinite(u)) or F(u) > Fmin + 1e-9 * max(1.0, abs(Fmin)):
+        fails.append(("prox", "not_a_minimiser", dict(prox=u.tolist(), objective=F(u)), dict(objective_at_most=Fmin)))
+    pc = np.asarray(d.prox_conjugate(w.copy(), float(step), y), dtype=float)
+    moreau = w - step * np.asarray(d.prox(w / step, 1.0 / step, y), dtype=float)
+    if not close(pc, moreau, float(np.abs(w).sum())):
+        fails.append(("prox_conjugate", "moreau_identity", pc.tolist(), moreau.tolist()))
+    return fails, u
+
+
+def prox_checks(ctx, d, dspec, y, base):
+    n = len(y)
+    pts = [np.zeros(n), y.copy(), y + 0.25, y - 3.0, np.arange(n, dtype=float) - 1.0, y * 0.5 + (np.arange(n) % 3 - 1.0)]
+    for w in pts:
+        for step in (0.1, 1.0, 4.0):
+            try:
+                fails, u = prox_eval(d, dspec, y, w, step)
+            except Exception as e:
+                fails, u = [("prox", "exception", type(e).__name__ + ": " + str(e)[:80], None)], None
+            ctx.obs(u, nontrivial=u is not None and not np.array_equal(u, w))
+            ctx.count("prox_points")
+            for acc, kind, got, exp in fails:
+                ctx.violation(f"datafit:{dspec['name']}.{acc}", kind, dict(base, op="prox", w=w.tolist(), step=step), got, exp,
+                              where=dict(datafit=dspec["name"], accessor=acc))
 
 
 def replay(params):
     from mc.core import fhex
+    if params["op"] == "prox":
+        from mc import build
+        y = np.array(params["y"], dtype=float)
+        d = build.datafit(params["dspec"])
+        fails, u = prox_eval(d, params["dspec"], y, np.array(params["w"], dtype=float), params["step"])
+        return dict(violated=bool(fails), kinds=sorted({f"{a}:{k}" for a, k, _, _ in fails}), prox=fhex(u))
     X = np.array(params["X"], dtype=float)
     y = np.array(params["y"], dtype=float)
     y = np.asfortranarray(y) if y.ndim == 2 else y
@@ -369,5 +421,6 @@ def describe(tier, agg):
             "{all of T(2,2), T(3,2) (orbit representatives in quick, all 729 in thorough), G, Z (zero column first/mid/last), S, "
             "1-feature, 2-sample} x targets of the right kind (Cox: every (time,status) in {1,2,3}^n x {0,1}^n for n<=3, a "
             "fifth of the 1296 patterns at n=4 in quick / all in thorough) x w grid; every accessor the class offers, dense and "
-            "CSC, vs reference loss/gradient/Hessian; distinct = distinct observation vectors at w != 0, X != 0")
+            "CSC, vs reference loss/gradient/Hessian; prox / prox_conjugate of the primal-dual datafits (sqrt, pinball) vs brute-force "
+            "minimisation and Moreau's identity; distinct = distinct observation vectors at w != 0, X != 0")
     return rule, {"problems": 200}
